@@ -2,12 +2,12 @@
 
    Rust state: { unicode, src, index, end, cps }.  `at(i)` returns None when i >= end, otherwise the i-th code
    point (unicode) or the i-th UTF-16 unit (not unicode) of src.  The validator always calls
-   `reset(source, 0, source.chars().count(), u_flag)`, i.e. `end` is the number of CODE POINTS even when the
-   reader indexes UTF-16 units (so without `u` everything after the first chars().count() units is invisible).
+   `reset(source, 0, end, u_flag)` with end = source.chars().count() under u and source.encode_utf16().count()
+   otherwise, i.e. the whole source is visible in the unit kind the reader indexes.
 
    Model: the triple (unicode, src, end) is represented by the list of visible units
-   `units = firstn (length src) (if u then src else utf16 src)` -- `at i = nth_error units i` -- and `index`
-   by `idx`.  `cps` (a VecDeque holding at(index), .., at(index+3), refilled by every rewind and shifted by
+   `units = if u then src else utf16 src` -- `at i = nth_error units i` -- and `index` by `idx`.
+   `cps` (a VecDeque holding at(index), .., at(index+3), refilled by every rewind and shifted by
    every advance) is a cache of the window; the model reads the window from `units` directly.
    `creader` below is the literal reader with the cache; Regex/ReaderCache.v (`creader_refines`) shows that the
    cache always equals the window, whatever its content was before `reset`. *)
@@ -22,9 +22,8 @@ Definition utf16_of (c : N) : list N :=
   else let v := c - 65536 in [55296 + N.shiftr v 10; 56320 + N.land v 1023].
 Definition utf16 (s : str) : list N := flat_map utf16_of s.
 
-(* what `reset(source, 0, source.chars().count(), u)` makes visible *)
-Definition visible_units (src : str) (u : bool) : list N :=
-  firstn (length src) (if u then src else utf16 src).
+(* what `reset(source, 0, end, u)` makes visible: end counts the units of the kind selected by u *)
+Definition visible_units (src : str) (u : bool) : list N := if u then src else utf16 src.
 
 Record reader := mkreader { units : list N; idx : nat }.
 
